@@ -243,33 +243,90 @@ def classify(route, kinds, tokens, detail):
     return None
 
 
-# coverage floors for the quick tier (about 1/4 of what the unchanged tree
-# gives with seed 0); thorough uses 3x these
-FLOORS_QUICK = {"probe:accept": 350, "probe:reject": 700,
-                "part:catalogue": 130, "part:random": 30,
-                "monitor:script:earlier-yaml-still-equal": 130}
-for _r in ("yaml", "json", "script"):
-    for _m in ("pandera-eq", "projection", "second-generation-text",
-               "verdict-vector"):
-        FLOORS_QUICK[f"monitor:{_r}:{_m}"] = 150
-    FLOORS_QUICK[f"monitor:{_r}:source-unchanged"] = 180
-    FLOORS_QUICK[f"roundtrip_ok:{_r}"] = 130
-for _k in ("equal_to", "not_equal_to", "greater_than",
-           "greater_than_or_equal_to", "less_than", "less_than_or_equal_to",
-           "in_range", "isin", "notin", "str_matches", "str_contains",
-           "str_startswith", "str_endswith", "str_length",
-           "unique_values_eq"):
-    FLOORS_QUICK[f"class:col.check:{_k}"] = 2
-for _k, _v in {"frame.strict": 1, "frame.ordered": 2, "frame.unique": 2,
-               "frame.title": 5, "frame.description": 5, "frame.name": 4,
-               "frame.dtype": 2, "frame.coerce": 1, "frame.check": 15,
-               "frame.check-opt": 8, "col.nullable": 2, "col.unique": 1,
-               "col.coerce": 2, "col.required": 2, "col.regex": 2,
-               "col.title": 5, "col.description": 6, "col.name": 8,
-               "col.check-opt": 30, "col.checks": 4, "idx.unique": 1,
-               "idx.nullable": 2, "idx.coerce": 1, "idx.title": 3,
-               "idx.description": 3, "idx.name": 50, "idx.check": 25,
-               "multiindex": 10, "index": 35}.items():
-    FLOORS_QUICK[f"feature:{_k}"] = _v
-for _o in ("ignore_na", "raise_warning", "n_failure_cases"):
-    FLOORS_QUICK[f"class:col.check-opt:{_o}"] = 8
+# coverage floors: about 1/4 of what the repaired tree gives with seed 0
+# (measured per tier; every counter of the deterministic catalogue is the
+# same for every seed, the random part varies by a few percent)
+FLOORS = {
+"quick": {
+    "class:col.check-opt:ignore_na": 8,
+    "class:col.check-opt:n_failure_cases": 10,
+    "class:col.check-opt:raise_warning": 8, "class:col.check:equal_to": 8,
+    "class:col.check:greater_than": 7,
+    "class:col.check:greater_than_or_equal_to": 5,
+    "class:col.check:in_range": 9, "class:col.check:isin": 10,
+    "class:col.check:less_than": 5, "class:col.check:less_than_or_equal_to":
+    4, "class:col.check:not_equal_to": 8, "class:col.check:notin": 7,
+    "class:col.check:str_contains": 2, "class:col.check:str_endswith": 2,
+    "class:col.check:str_length": 4, "class:col.check:str_matches": 2,
+    "class:col.check:str_startswith": 2, "class:col.check:unique_values_eq":
+    8, "feature:col.check-opt": 27, "feature:col.checks": 3,
+    "feature:col.coerce": 1, "feature:col.description": 6,
+    "feature:col.name": 7, "feature:col.nullable": 2, "feature:col.regex":
+    3, "feature:col.required": 1, "feature:col.title": 7,
+    "feature:col.unique": 1, "feature:frame.check": 17,
+    "feature:frame.check-opt": 11, "feature:frame.coerce": 2,
+    "feature:frame.description": 5, "feature:frame.dtype": 3,
+    "feature:frame.name": 4, "feature:frame.ordered": 1,
+    "feature:frame.strict": 1, "feature:frame.title": 5,
+    "feature:frame.unique": 2, "feature:idx.check": 30,
+    "feature:idx.coerce": 1, "feature:idx.description": 4,
+    "feature:idx.name": 58, "feature:idx.nullable": 2, "feature:idx.title":
+    3, "feature:idx.unique": 2, "feature:index": 42, "feature:multiindex":
+    13, "monitor:json:pandera-eq": 181, "monitor:json:projection": 181,
+    "monitor:json:second-generation-text": 181,
+    "monitor:json:source-unchanged": 183, "monitor:json:verdict-vector":
+    181, "monitor:script:earlier-yaml-still-equal": 182,
+    "monitor:script:pandera-eq": 183, "monitor:script:projection": 183,
+    "monitor:script:second-generation-text": 183,
+    "monitor:script:source-unchanged": 183, "monitor:script:verdict-vector":
+    183, "monitor:yaml:pandera-eq": 182, "monitor:yaml:projection": 182,
+    "monitor:yaml:second-generation-text": 182,
+    "monitor:yaml:source-unchanged": 183, "monitor:yaml:verdict-vector":
+    182, "part:catalogue": 146, "part:random": 37, "probe:accept": 372,
+    "probe:reject": 726, "roundtrip_ok:json": 174, "roundtrip_ok:script":
+    176, "roundtrip_ok:yaml": 174
+},
+"thorough": {
+    "class:col.check-opt:ignore_na": 239,
+    "class:col.check-opt:n_failure_cases": 260,
+    "class:col.check-opt:raise_warning": 245, "class:col.check:equal_to":
+    137, "class:col.check:greater_than": 79,
+    "class:col.check:greater_than_or_equal_to": 80,
+    "class:col.check:in_range": 76, "class:col.check:isin": 145,
+    "class:col.check:less_than": 76,
+    "class:col.check:less_than_or_equal_to": 86,
+    "class:col.check:not_equal_to": 131, "class:col.check:notin": 111,
+    "class:col.check:str_contains": 23, "class:col.check:str_endswith": 23,
+    "class:col.check:str_length": 29, "class:col.check:str_matches": 24,
+    "class:col.check:str_startswith": 28,
+    "class:col.check:unique_values_eq": 103, "feature:col.check-opt": 746,
+    "feature:col.checks": 107, "feature:col.coerce": 61,
+    "feature:col.description": 186, "feature:col.name": 181,
+    "feature:col.nullable": 62, "feature:col.regex": 63,
+    "feature:col.required": 61, "feature:col.title": 174,
+    "feature:col.unique": 60, "feature:frame.check": 327,
+    "feature:frame.check-opt": 247, "feature:frame.coerce": 51,
+    "feature:frame.description": 95, "feature:frame.dtype": 52,
+    "feature:frame.name": 88, "feature:frame.ordered": 47,
+    "feature:frame.strict": 45, "feature:frame.title": 94,
+    "feature:frame.unique": 43, "feature:idx.check": 248,
+    "feature:idx.coerce": 25, "feature:idx.description": 47,
+    "feature:idx.name": 598, "feature:idx.nullable": 24,
+    "feature:idx.title": 44, "feature:idx.unique": 22, "feature:index": 345,
+    "feature:multiindex": 311, "monitor:json:pandera-eq": 1676,
+    "monitor:json:projection": 1676, "monitor:json:second-generation-text":
+    1676, "monitor:json:source-unchanged": 1734,
+    "monitor:json:verdict-vector": 1676,
+    "monitor:script:earlier-yaml-still-equal": 1677,
+    "monitor:script:pandera-eq": 1735, "monitor:script:projection": 1735,
+    "monitor:script:second-generation-text": 1735,
+    "monitor:script:source-unchanged": 1735,
+    "monitor:script:verdict-vector": 1735, "monitor:yaml:pandera-eq": 1677,
+    "monitor:yaml:projection": 1677, "monitor:yaml:second-generation-text":
+    1677, "monitor:yaml:source-unchanged": 1735,
+    "monitor:yaml:verdict-vector": 1677, "part:catalogue": 260,
+    "part:random": 1479, "probe:accept": 2641, "probe:reject": 7741,
+    "roundtrip_ok:json": 1526, "roundtrip_ok:script": 1579,
+    "roundtrip_ok:yaml": 1526
+},
+}
